@@ -581,7 +581,7 @@ func cmdCheck(args []string) int {
 		if len(sl) > 10 {
 			sl = sl[:10]
 		}
-		var out []string
+		out := []string{}
 		for _, it := range sl {
 			out = append(out, fmt.Sprintf("%s %.1fs (%s)", it.Name, it.Secs, it.Solver))
 		}
